@@ -287,3 +287,20 @@ package engine
 //@     frame nothing
 //@   store tagSetCursor.limitCount
 //@     requires [budget_counts_emitted_rows] val == obj.limitCount + emitted
+
+// ================================================================ C13: the "being dropped" flag of a shard
+// While a measurement is dropped on a shard its name is flagged; the flush skips the flagged measurement's rows in the
+// memtable (they are dropped data). The flag names ONE measurement VERSION (`cpu_0000`), exactly as given: the re-created
+// measurement `cpu_0001` is another object - rows acknowledged for it while the old version is being removed are not
+// dropped data, and are flushed (keying the flag by the name without its version suffix loses them for good: the
+// flush skips them and then removes the log).
+//@ prop C13
+//@ func (*shard).setMstDeleting
+//@   call .Store
+//@     requires [flag_names_exactly_the_given_version] as(arg0, "string") == mst
+//@ func (*shard).clearMstDeleting
+//@   call .Delete
+//@     requires [flag_names_exactly_the_given_version] as(arg0, "string") == mst
+//@ func (*shard).checkMstDeleting
+//@   call .Load
+//@     requires [flag_names_exactly_the_given_version] as(arg0, "string") == mst
